@@ -21,20 +21,21 @@ const modPath = "github.com/weedbox/pokerface"
 var corePkgs = []string{".", "./pot", "./settlement", "./combination", "./seat_manager", "./regulator"}
 
 type Program struct {
-	Repo    string
-	Fset    *token.FileSet
-	Pkgs    map[string]*packages.Package // by package name
-	SSA     *ssa.Program
-	SPkgs   map[string]*ssa.Package
-	Funcs   map[string]*ssa.Function // "pkg.(*T).M" / "pkg.F"
-	Impl    map[string]types.Type    // interface named type key -> unique implementing pointer type
-	Strings map[string]int           // string literal -> code
-	StrList []string
-	Specs   map[string]*FuncSpec // by function key
-	Preds   map[string]*PredDef  // by "pkg.Name" and "Name" within pkg
-	Funs    map[string]*FunDef   // recursive spec functions by "pkg.Name"
-	Lemmas  []*LemmaDef
-	GlobTab map[*ssa.Global]*GlobalTable
+	Repo       string
+	Fset       *token.FileSet
+	Pkgs       map[string]*packages.Package // by package name
+	SSA        *ssa.Program
+	SPkgs      map[string]*ssa.Package
+	Funcs      map[string]*ssa.Function // "pkg.(*T).M" / "pkg.F"
+	Impl       map[string]types.Type    // interface named type key -> unique implementing pointer type
+	Strings    map[string]int           // string literal -> code
+	StrList    []string
+	Specs      map[string]*FuncSpec // by function key
+	Preds      map[string]*PredDef  // by "pkg.Name" and "Name" within pkg
+	Funs       map[string]*FunDef   // recursive spec functions by "pkg.Name"
+	Lemmas     []*LemmaDef
+	Guards     []*GuardDef
+	GlobTab    map[*ssa.Global]*GlobalTable
 	ErrGlobals []*ssa.Global
 	mu         sync.Mutex
 	tabMu      sync.Mutex
